@@ -16,10 +16,11 @@ type H2Req struct {
 }
 
 type H2Script struct {
-	Groups [][]Frame
-	Events []FPEvent
-	Reqs   []H2Req
-	NPrio  int
+	Groups  [][]Frame
+	Events  []FPEvent
+	Reqs    []H2Req
+	Refused []uint32 // streams opened by HEADERS frames the server must refuse (stream error)
+	NPrio   int
 }
 
 type H2GenOpts struct {
@@ -224,6 +225,31 @@ func DrawH2Script(t *rapid.T, o H2GenOpts) *H2Script {
 	}
 	if o.TailFrames {
 		extra(uint32(2*nreq+1), "ntail")
+		if drawBool(t, "refused", 25) {
+			// a HEADERS frame the server refuses with a stream error (no :path), usually with
+			// priority: it is a frame the client sent, so it counts for the fingerprint of
+			// every request that is forwarded after it - headers and priority alike
+			id := uint32(2*nreq + 1)
+			perm := [][]string{{":method", ":scheme", ":authority"}, {":authority", ":method", ":scheme"}, {":scheme", ":method"}}[rapid.IntRange(0, 2).Draw(t, "refperm")]
+			var fields [][2]string
+			var pseudo []string
+			for _, k := range perm {
+				v := map[string]string{":method": "GET", ":scheme": "https", ":authority": "refused.verif.test"}[k]
+				fields = append(fields, [2]string{k, v})
+				pseudo = append(pseudo, k[1:])
+			}
+			fields = append(fields, [2]string{"x-tag", fmt.Sprintf("c%d-refused", o.ClientID)})
+			var prio *PrioParam
+			if drawBool(t, "refprio", 75) {
+				pp := drawPrio(t, id)
+				prio = &pp
+			}
+			cur = append(cur, HeadersFrames(id, enc.Block(fields), true, prio, -1, nil)...)
+			addEvent(FPEvent{Kind: "headers", Stream: id, Prio: prio, Pseudo: pseudo})
+			s.Refused = append(s.Refused, id)
+			maybeFlush()
+			extra(uint32(2*nreq+3), "ntail2")
+		}
 	}
 	flush()
 	return s
